@@ -1,52 +1,123 @@
-"""C11 join computes the relational join with the documented aggregates (DESIGN §5 C11) — structural clauses."""
+"""C11 join computes the relational join with the documented aggregates (DESIGN §5 C11) — structural clauses.
+
+Shape clauses look at normalised functions (local helpers inlined, canonical spellings) and use patterns with metavariables."""
 import ast
 
 from rules import abstypes, stream
 from sa.deps import Facts, names_in, pseudo
 from sa.loader import AnalysisError, FuncInfo, own_nodes
-from sa.model import is_drain_call, rowloop_signature, stmts_after, u, where
+from sa.model import is_drain_call, rowloop_signature, row_loops, stmts_after, u, where
+from sa.normalize import resolve_here
 from sa.paths import CONTINUE, FALL, RAISE, Enumerator, path_nodes
 from sa.pattern import find_expr, find_stmt, has_expr, has_stmt, match_expr, match_stmt
 
 J = 'dataflows.processors.join'
 
 
+def nested(ctx, aux, role):
+    """Nested functions of join_aux found by role, not by name."""
+    fs = [f for f in ctx.repo.functions.values() if f.parent is aux and not isinstance(f.node, ast.Lambda)]
+    if role == 'step':
+        c = [f for f in fs if f.all_params == ['package'] and f.is_generator]
+    elif role == 'resource_iterator':
+        step = nested(ctx, aux, 'step')
+        c = []
+        for n in ast.walk(step.node):
+            if isinstance(n, ast.YieldFrom) and isinstance(n.value, ast.Call):
+                c += [t for t in ctx.res.resolve_call(n.value) if isinstance(t, FuncInfo)]
+    elif role == 'indexer':
+        # the generator that stores into the index and re-yields the source rows
+        c = [f for f in fs if f.is_generator and any(isinstance(n, ast.Call) and u(n.func).endswith('.set') for n in ast.walk(f.node))
+             and not any(isinstance(n, ast.Try) and any('KeyError' in u(h.type) for h in n.handlers if h.type is not None)
+                         and any(isinstance(x, ast.Continue) for x in ast.walk(n)) for n in ast.walk(f.node))
+             and f.all_params != ['package']]
+        c = [f for f in c if 'AGGREGATORS' in u(ctx.N(f).node)]
+    elif role == 'target':
+        ri = nested(ctx, aux, 'resource_iterator')
+        idx = nested(ctx, aux, 'indexer')
+        c = []
+        for n in ast.walk(ri.node):
+            if isinstance(n, ast.Yield) and isinstance(n.value, ast.Call):
+                for t in ctx.res.resolve_call(n.value):
+                    if isinstance(t, FuncInfo) and t is not idx and t not in c:
+                        c.append(t)
+    elif role == 'lookup':
+        tg = nested(ctx, aux, 'target')
+        c = []
+        for n in ast.walk(tg.node):
+            if isinstance(n, ast.Try):
+                for x in n.body:
+                    for call in ast.walk(x):
+                        if isinstance(call, ast.Call):
+                            for t in ctx.res.resolve_call(call):
+                                if isinstance(t, FuncInfo) and t.parent is aux and t not in c:
+                                    c.append(t)
+    else:
+        raise AnalysisError('unknown role ' + role)
+    if len(c) != 1:
+        raise AnalysisError('join_aux: function with role %r not found (%d candidates)' % (role, len(c)))
+    return c[0]
+
+
 def check(ctx):
+    _body(ctx)
+    ctx.run.trusted += ['LF5 KVFile get raises KeyError for a missing key; set overwrites']
+    ctx.run.not_decided += ['that each aggregate equals its definition on all inputs (values)', 'key rendering and null-key behaviour',
+                            'equivalence of the in-memory cache and the on-disk index']
+    return (EXPLANATION, ['LF5'])
+
+
+def _body(ctx):
     run, repo, res = ctx.run, ctx.repo, ctx.res
     aux = repo.func(J + ':join_aux')
-    pt = repo.func(J + ':join_aux.process_target')
-    ix = repo.func(J + ':join_aux.indexer')
-    ce = repo.func(J + ':join_aux.create_extra_by_key')
-    nri = repo.func(J + ':join_aux.new_resource_iterator')
+    pt0 = nested(ctx, aux, 'target')
+    ix0 = nested(ctx, aux, 'indexer')
+    ce0 = nested(ctx, aux, 'lookup')
+    nri = nested(ctx, aux, 'resource_iterator')
+    roles = (pt0.qualname, ix0.qualname, ce0.qualname)
+    pt, ix, ce = ctx.N(pt0, keep=roles), ctx.N(ix0, keep=roles), ctx.N(ce0, keep=roles)
 
     run.rule('R23', 'MODE-SIGNATURE(join): per target row - key found: the row is extended with the aggregates and yielded once (same '
                     'object); not found & inner: dropped; not found & outer: yielded once with nulls; full-outer additionally emits, '
                     'after the target rows, one row per source key whose usage flag is still False; the indexer clears the flag, a '
                     'match sets it; deduplication drains the indexer, then emits one row per stored key')
-    loops = [n for n in ast.walk(pt.node) if isinstance(n, ast.For) and isinstance(n.iter, ast.Call) and u(n.iter.func) == 'enumerate'
-             and pseudo(n.iter.args[0]) == pt.params[0]]
+    loops = [l for l, v, s_ in row_loops(pt, streams=[pt.params[0]])]
     if len(loops) != 1:
-        raise AnalysisError('join.process_target: target row loop not found')
+        raise AnalysisError('join target generator: row loop over its resource not found')
     lp = loops[0]
-    start = {k.arg: k.value for k in lp.iter.keywords}.get('start')
-    run.check(isinstance(start, ast.Constant) and start.value == 1, 'R23', where(repo, lp), pt.qualname, 'enumerate(resource, start=1)',
+    st = {k.arg: k.value for k in lp.iter.keywords}.get('start') if isinstance(lp.iter, ast.Call) else None
+    tgt_elts = lp.target.elts if isinstance(lp.target, ast.Tuple) else []
+    run.check(isinstance(lp.iter, ast.Call) and u(lp.iter.func) == 'enumerate' and isinstance(st, ast.Constant) and st.value == 1
+              and len(tgt_elts) == 2, 'R23', where(repo, lp), pt.qualname, 'enumerate(resource, start=1)',
               'row numbers of the target do not start at 1 (the `#` key disagrees with the source side)')
-    rn, row = [t.id for t in lp.target.elts]
+    if len(tgt_elts) != 2:
+        return
+    rn, row = [t.id for t in tgt_elts]
     sigs = rowloop_signature(pt, lp, row)
     seen = set()
+    trys = [n for n in ast.walk(lp) if isinstance(n, ast.Try)]
+    ok_try = len(trys) == 1 and len(trys[0].handlers) == 1 and u(trys[0].handlers[0].type) == 'KeyError'
+    b = None
+    if ok_try:
+        b = match_stmt('try:\n    _extra = __LOOKUP(_key)\n    _usage.set(_key, True)\nexcept KeyError:\n    ...', trys[0])
+        ok_try = b is not None and any(isinstance(t, FuncInfo) and t is ce0 for t in
+                                       res._resolve_callee(b['__LOOKUP'], pt.module, pt0)) if b else False
+    run.check(ok_try, 'R23', where(repo, lp), pt.qualname, 'try: extra = lookup(key); usage.set(key, True) except KeyError',
+              'a key is marked used although the lookup failed, the lookup is not the index lookup, or errors other than a missing '
+              'key are treated as "no match"')
+    if not ok_try:
+        return
+    extra, key, usage = b['_extra'], b['_key'], b['_usage']
     for s in sigs:
-        exc = any(it.kind == 'handler' and 'KeyError' in u(it.node.type) for it in s.path.items)
-        inner = [pol for t, pol in s.guards if u(t) == "mode == 'inner'"]
+        exc = any(it.kind == 'handler' for it in s.path.items)
+        inner = [pol for t, pol in s.guards if match_expr("mode == 'inner'", t) is not None]
         kinds = [k for k, _ in s.yields]
         nodes = list(path_nodes(s.path))
         upd = [c for c in nodes if isinstance(c, ast.Call) and u(c.func) == '%s.update' % row]
-        sets = [c for c in nodes if isinstance(c, ast.Call) and u(c.func) == 'db_keys_usage.set']
         if not exc:
             seen.add('found')
-            ok = kinds == ['identity'] and len(upd) == 1 and pseudo(upd[0].args[0]) == 'extra' and len(sets) == 1 and \
-                u(sets[0].args[1]) == 'True' and pseudo(sets[0].args[0]) == 'key'
-            facts = Facts(pt, include_nested=False)
-            run.check(ok, 'R23', where(repo, lp), pt.qualname, 'found: usage[key]=True; row.update(extra); yield row',
+            ok = kinds == ['identity'] and len(upd) == 1 and pseudo(upd[0].args[0]) == extra and s.term == FALL
+            run.check(ok, 'R23', where(repo, lp), pt.qualname, 'found: row.update(extra); yield row',
                       'a matched target row is not extended with the aggregates and yielded exactly once', detail=s.describe())
         elif inner and inner[0]:
             seen.add('inner')
@@ -54,81 +125,65 @@ def check(ctx):
                       'not found & inner: dropped', 'inner mode keeps an unmatched target row', detail=s.describe())
         elif inner:
             seen.add('outer')
-            ok = kinds == ['identity'] and len(upd) == 1 and not sets
-            run.check(ok, 'R23', where(repo, lp), pt.qualname, 'not found & outer: yielded once with nulls',
-                      'outer modes drop or duplicate an unmatched target row', detail=s.describe())
+            ok = kinds == ['identity'] and len(upd) == 1 and pseudo(upd[0].args[0]) == extra
+            nulls = [n for n in nodes if isinstance(n, ast.Assign) and pseudo(n.targets[0]) == extra]
+            ok = ok and len(nulls) == 1 and (match_expr('{_k: _r.get(_k) for _k in fields.keys()}', nulls[0].value, {'_r': row}) is not None
+                                             or match_expr('{_k: _r.get(_k) for _k in fields}', nulls[0].value, {'_r': row}) is not None)
+            run.check(ok, 'R23', where(repo, lp), pt.qualname, 'not found & outer: extra = {k: row.get(k) for k in fields}; yielded once',
+                      'outer modes drop or duplicate an unmatched target row, or it does not get a null for every joined field',
+                      detail=s.describe())
+        else:
+            run.fail('R23', where(repo, lp), pt.qualname, s.describe(), 'a path of the target loop is neither found / inner / outer')
     run.check(seen == {'found', 'inner', 'outer'}, 'R23', where(repo, lp), pt.qualname, 'three outcomes per target row',
               'process_target lacks one of found / unmatched-inner / unmatched-outer (%s)' % sorted(seen))
-    # try body: lookup then flag; except KeyError only
-    trys = [n for n in ast.walk(lp) if isinstance(n, ast.Try)]
-    ok = len(trys) == 1 and len(trys[0].handlers) == 1 and u(trys[0].handlers[0].type) == 'KeyError'
-    if ok:
-        b = trys[0].body
-        ok = len(b) == 2 and u(b[0]) == 'extra = create_extra_by_key(key)' and u(b[1]) == 'db_keys_usage.set(key, True)'
-    run.check(ok, 'R23', where(repo, lp), pt.qualname, 'try: extra = create_extra_by_key(key); usage.set(key, True) except KeyError',
-              'a key is marked used although the lookup failed, or errors other than a missing key are treated as "no match"')
-    # key of the target row
-    facts = Facts(pt, include_nested=False)
-    kv = [v for v in facts.values_of('key') if isinstance(v, ast.Call) and u(v.func) == 'target_key']
-    run.check(len(kv) == 1 and [pseudo(a) for a in kv[0].args] == [row, rn], 'R23', where(repo, lp), pt.qualname,
-              'key = target_key(row, row_number)', 'the target key is not rendered from the row and its number')
-    # unmatched outer rows get nulls for the joined fields (their own value if present)
-    ex = [n for n in ast.walk(lp) if isinstance(n, ast.Assign) and pseudo(n.targets[0]) == 'extra' and isinstance(n.value, ast.Call)
-          and u(n.value.func) == 'dict']
-    ok = len(ex) == 1 and (match_expr('dict(((_k, _r.get(_k)) for _k in fields.keys()))', ex[0].value, {'_r': row}) is not None or
-                           match_expr('dict(((_k, _r.get(_k)) for _k in fields))', ex[0].value, {'_r': row}) is not None)
-    run.check(ok, 'R23', where(repo, lp), pt.qualname, 'extra = dict((k, row.get(k)) for k in fields.keys())',
-              'an unmatched target row does not get a null for every joined field')
+    kv = find_stmt('%s = target_key(%s, %s)' % (key, row, rn), lp)
+    run.check(len(kv) == 1, 'R23', where(repo, lp), pt.qualname, 'key = target_key(row, row_number)',
+              'the target key is not rendered from the row and its number')
     # full-outer emission after the loop
     post = stmts_after(lp)
-    ok = len(post) == 1 and isinstance(post[0], ast.If) and u(post[0].test) == "mode == 'full-outer'"
-    if ok:
-        fl = [n for n in post[0].body if isinstance(n, ast.For)]
-        ok = len(fl) == 1 and u(fl[0].iter) == 'db_keys_usage.items()'
-        if ok:
-            k, v = [t.id for t in fl[0].target.elts]
-            cond = [n for n in fl[0].body if isinstance(n, ast.If)]
-            ok = len(fl[0].body) == 1 and len(cond) == 1 and u(cond[0].test) == '%s is False' % v and not cond[0].orelse
-            if ok:
-                b = cond[0].body
-                ok = len(b) == 2 and u(b[0]) == 'extra = create_extra_by_key(%s)' % k and u(b[1]) == 'yield extra'
-    run.check(ok, 'R23', pt.where, pt.qualname, "after the loop, full-outer only: for key, used in usage.items(): if used is False: yield extra(key)",
+    okp = len(post) == 1 and match_stmt("if mode == 'full-outer':\n    for (_k, _used) in %s.items():\n        if _used is False:\n"
+                                        "            _e = __LOOKUP(_k)\n            yield _e" % usage, post[0]) is not None
+    run.check(okp, 'R23', pt.where, pt.qualname, "after the loop, full-outer only: for key, used in usage.items(): if used is False: yield lookup(key)",
               'full-outer does not emit exactly the unmatched source keys after the target rows')
-    # indexer: flag False, store, identity yield
-    il = [n for n in own_nodes(ix.node) if isinstance(n, ast.For) and isinstance(n.iter, ast.Call) and u(n.iter.func) == 'enumerate']
-    if len(il) != 1:
-        raise AnalysisError('join.indexer: source row loop not found')
-    il = il[0]
-    irn, irow = [t.id for t in il.target.elts]
-    st = {k.arg: k.value for k in il.iter.keywords}.get('start')
-    run.check(isinstance(st, ast.Constant) and st.value == 1 and pseudo(il.iter.args[0]) == ix.params[0], 'R23', where(repo, il), ix.qualname,
-              'enumerate(resource, start=1)', 'row numbers of the source do not start at 1')
-    isig = rowloop_signature(ix, il, irow)
-    okall = True
-    for s in isig:
-        nodes = list(path_nodes(s.path, into_loops=True))
-        sets = [c for c in nodes if isinstance(c, ast.Call) and u(c.func) == 'db_keys_usage.set']
-        dbs = [c for c in nodes if isinstance(c, ast.Call) and u(c.func) == 'db.set']
-        okall = okall and [k for k, _ in s.yields] == ['identity'] and s.term == FALL and \
-            len(sets) == 1 and u(sets[0].args[1]) == 'False' and pseudo(sets[0].args[0]) == 'key' and \
-            len(dbs) == 1 and [pseudo(a) for a in dbs[0].args] == ['key', 'current']
-    run.check(okall, 'R23', where(repo, il), ix.qualname, 'per source row: db.set(key, current); usage.set(key, False); yield row',
-              'the indexer does not store every source row under its key, clear its usage flag and pass the row on unchanged')
-    ifacts = Facts(ix, include_nested=False)
-    kv = [v for v in ifacts.values_of('key') if isinstance(v, ast.Call) and u(v.func) == 'source_key']
-    run.check(len(kv) == 1 and [pseudo(a) for a in kv[0].args] == [irow, irn], 'R23', where(repo, il), ix.qualname,
-              'key = source_key(row, row_number)', 'the source key is not rendered from the row and its number')
-    # aggregation over non-null values only, with the aggregator named by the spec
-    fold = find_stmt('if _new is not None:\n    _cur[_f] = AGGREGATORS[_agg].func(_c, _new)\nelif _f not in _cur:\n    _cur[_f] = None', il)
-    ok = len(fold) == 1
-    if ok:
-        b = fold[0][1]
-        ok = has_stmt("%s = %s.get(%s)" % (b['_c'], b['_cur'], b['_f']), il) and has_stmt("%s = _spec['aggregate']" % b['_agg'], il) and \
-            (has_stmt("%s = %s.get(_n)" % (b['_new'], irow), il) or has_stmt("%s = %s[_n]" % (b['_new'], irow), il)) and \
-            has_stmt("_n = _spec['name']", il)
-    run.check(ok, 'R23', where(repo, il), ix.qualname,
-              'current[field] = AGGREGATORS[spec aggregate].func(current.get(field), row.get(spec name)) for non-null values',
-              'aggregates are not folded over exactly the non-null source values of the matching key')
+
+    # indexer
+    iloops = [l for l, v, s_ in row_loops(ix, streams=[ix.params[0]])]
+    if len(iloops) != 1:
+        raise AnalysisError('join indexer: source row loop not found')
+    il = iloops[0]
+    st = {k.arg: k.value for k in il.iter.keywords}.get('start') if isinstance(il.iter, ast.Call) else None
+    ielts = il.target.elts if isinstance(il.target, ast.Tuple) else []
+    run.check(isinstance(il.iter, ast.Call) and u(il.iter.func) == 'enumerate' and isinstance(st, ast.Constant) and st.value == 1
+              and len(ielts) == 2, 'R23', where(repo, il), ix.qualname, 'enumerate(resource, start=1)', 'row numbers of the source do not start at 1')
+    if len(ielts) == 2:
+        irn, irow = [t.id for t in ielts]
+        isig = rowloop_signature(ix, il, irow)
+        okall = bool(isig)
+        ikey = cur = None
+        for s in isig:
+            nodes = list(path_nodes(s.path, into_loops=True))
+            sets = [c for c in nodes if isinstance(c, ast.Call) and u(c.func) == '%s.set' % usage]
+            dbs = [c for c in nodes if isinstance(c, ast.Call) and u(c.func).endswith('.set') and c not in sets]
+            okall = okall and [k for k, _ in s.yields] == ['identity'] and s.term == FALL and len(sets) == 1 and \
+                u(sets[0].args[1]) == 'False' and len(dbs) == 1 and len(dbs[0].args) == 2 and \
+                pseudo(sets[0].args[0]) == pseudo(dbs[0].args[0])
+            if okall:
+                ikey, cur = pseudo(dbs[0].args[0]), pseudo(dbs[0].args[1])
+        run.check(okall, 'R23', where(repo, il), ix.qualname, 'per source row: db.set(key, current); usage.set(key, False); yield row',
+                  'the indexer does not store every source row under its key, clear its usage flag and pass the row on unchanged')
+        run.check(ikey is not None and len(find_stmt('%s = source_key(%s, %s)' % (ikey, irow, irn), il)) == 1, 'R23', where(repo, il),
+                  ix.qualname, 'key = source_key(row, row_number)', 'the source key is not rendered from the row and its number')
+        fold = find_stmt('if _new is not None:\n    _cur[_f] = AGGREGATORS[_agg].func(_c, _new)\nelif _f not in _cur:\n    _cur[_f] = None', il)
+        ok = len(fold) == 1 and cur is not None
+        if ok:
+            fb = fold[0][1]
+            ok = fb['_cur'] == cur and has_stmt("%s = %s.get(%s)" % (fb['_c'], cur, fb['_f']), il) and \
+                has_stmt("%s = _spec['aggregate']" % fb['_agg'], il) and \
+                (has_stmt("%s = %s.get(_n)" % (fb['_new'], irow), il) or has_stmt("%s = %s[_n]" % (fb['_new'], irow), il)) and \
+                has_stmt("_n = _spec['name']", il)
+        run.check(ok, 'R23', where(repo, il), ix.qualname,
+                  'current[field] = AGGREGATORS[spec aggregate].func(current.get(field), row.get(spec name)) for non-null values',
+                  'aggregates are not folded over exactly the non-null source values of the matching key')
     # dedup mode
     paths = Enumerator(where=pt.qualname).paths(pt.node.body)
     okd = False
@@ -137,114 +192,117 @@ def check(ctx):
             nodes = list(path_nodes(p, into_loops=True))
             drains = [c for c in nodes if isinstance(c, ast.Call) and is_drain_call(res, c)]
             floops = [it.node for it in p.items if it.kind == 'loop']
-            okd = len(drains) == 1 and u(drains[0].args[0]) == 'indexer(%s)' % pt.params[0] and len(floops) == 1 and \
-                u(floops[0].iter) == 'db.items()' and sum(isinstance(y, ast.Yield) for y in ast.walk(floops[0])) == 1 and \
+            okd = len(drains) == 1 and isinstance(drains[0].args[0], ast.Call) and \
+                any(isinstance(t, FuncInfo) and t is ix0 for t in res._resolve_callee(drains[0].args[0].func, pt.module, pt0)) and \
+                pseudo(drains[0].args[0].args[0]) == pt.params[0] and len(floops) == 1 and \
+                u(floops[0].iter).endswith('.items()') and sum(isinstance(y, ast.Yield) for y in ast.walk(floops[0])) == 1 and \
                 not any(isinstance(x, (ast.If, ast.Break, ast.Continue)) for x in ast.walk(floops[0])) and \
                 drains[0].lineno < floops[0].lineno
             if okd:
-                fb = u(floops[0])
-                okd = 'AGGREGATORS[fields[k][\'aggregate\']].finaliser(v)' in fb and '(f, None) for f in fields.keys()' in fb
+                okd = has_expr("{_k: AGGREGATORS[fields[_k]['aggregate']].finaliser(_v) for (_k, _v) in _val.items()}", floops[0]) and \
+                    (has_expr('{_f: None for _f in fields.keys()}', floops[0]) or has_expr('{_f: None for _f in fields}', floops[0]))
     run.check(okd, 'R23', pt.where, pt.qualname, 'dedup: drain indexer(resource); then one finalised row per key of db.items()',
               'deduplication mode does not emit exactly one aggregated row per distinct key')
-    # create_extra_by_key: finaliser of the aggregator named by the field spec, for joined fields only
-    cb = u(ce.node)
-    ok = 'extra = db.get(key)' in cb and "(k, AGGREGATORS[fields[k]['aggregate']].finaliser(v))" in cb and 'if k in fields' in cb and \
-        "key = extra.pop('__key__', None)" in cb and 'for k, v in zip(target_key.key_list, key)' in cb
-    run.check(ok, 'R23', ce.where, ce.qualname, 'extra = {k: finaliser_of(fields[k])(v) for k, v in db.get(key) if k in fields}',
+    # lookup: finaliser of the aggregator named by the field spec, for joined fields only
+    ok = has_expr("{_k: AGGREGATORS[fields[_k]['aggregate']].finaliser(_v) for (_k, _v) in _s.items() if _k in fields}", ce.node) and \
+        has_expr("_s.pop('__key__', None)", ce.node) and has_expr('zip(target_key.key_list, _kv)', ce.node)
+    run.check(ok, 'R23', ce.where, ce.qualname, 'extra = {k: finaliser_of(fields[k])(v) for k, v in db.get(key).items() if k in fields}',
               'the joined values are not the finalised aggregates of the fields requested')
-
     from rules import independence
-    independence.r28_functions(ctx, [(J + ':join_aux.indexer', {}), (J + ':join_aux.process_target', {})])
+    independence.r28_functions(ctx, [(ix0.qualname, {}), (pt0.qualname, {})])
+
     run.rule('AGG', 'AGGREGATOR-TABLE: the twelve documented aggregates exist with (func, finaliser, dataType, copyProperties) and their '
                     'fold / finaliser have the documented shape (max calls max, min calls min, sum adds, count adds one, first keeps '
-                    'the accumulator, last/any take the new value, set/array/counters collect)')
+                    'the accumulator, last/any take the new value, set/array/counters collect); the fold tests the accumulator with '
+                    '`is not None`, not for truth (0 and False are legitimate running values)')
     m, table = abstypes.table_entries(ctx, J, 'AGGREGATORS')
     shape = {
-        'sum': ('new + curr if curr is not None else new', 'identity'),
-        'max': ('max(new, curr) if curr is not None else new', 'identity'),
-        'min': ('min(new, curr) if curr is not None else new', 'identity'),
-        'first': ('curr if curr is not None else new', 'identity'),
-        'last': ('new', 'identity'),
-        'any': ('new', 'identity'),
-        'count': ('curr + 1 if curr is not None else 1', 'identity'),
-        'avg': ('(curr[0] + 1, new + curr[1]) if curr is not None else (1, new)', 'value[1] / value[0]'),
-        'median': ('curr + [new] if curr is not None else [new]', 'median'),
-        'array': ('curr + [new] if curr is not None else [new]', 'value if value is not None else []'),
-        'set': ('curr.union({new}) if curr is not None else {new}', 'list(value) if value is not None else []'),
-        'counters': ('update_counter(curr, new)', 'list(collections.Counter(value).most_common()) if value is not None else []'),
+        'sum': ('_new + _curr if _curr is not None else _new', 'identity'),
+        'max': ('max(_new, _curr) if _curr is not None else _new', 'identity'),
+        'min': ('min(_new, _curr) if _curr is not None else _new', 'identity'),
+        'first': ('_curr if _curr is not None else _new', 'identity'),
+        'last': ('_new', 'identity'),
+        'any': ('_new', 'identity'),
+        'count': ('_curr + 1 if _curr is not None else 1', 'identity'),
+        'avg': ('(_curr[0] + 1, _new + _curr[1]) if _curr is not None else (1, _new)', '_v[1] / _v[0]'),
+        'median': ('_curr + [_new] if _curr is not None else [_new]', 'median'),
+        'array': ('_curr + [_new] if _curr is not None else [_new]', '_v if _v is not None else []'),
+        'set': ('_curr.union({_new}) if _curr is not None else {_new}', 'list(_v) if _v is not None else []'),
+        'counters': ('update_counter(_curr, _new)', 'list(collections.Counter(_v).most_common()) if _v is not None else []'),
     }
     commutative = {'sum', 'count', 'avg', 'max', 'min'}
 
-    def canon(e, comm):
-        """canonical text: `x if c is None else y` -> `y if c is not None else x`; operands of + (numeric aggregates) and
-        arguments of max/min sorted"""
-        if isinstance(e, ast.IfExp):
-            t, b, o = e.test, e.body, e.orelse
-            if isinstance(t, ast.Compare) and isinstance(t.ops[0], ast.Is) and u(t.comparators[0]) == 'None':
-                t = ast.Compare(left=t.left, ops=[ast.IsNot()], comparators=t.comparators)
-                b, o = o, b
-            return '%s if %s else %s' % (canon(b, comm), u(t), canon(o, comm))
-        if isinstance(e, ast.BinOp) and isinstance(e.op, ast.Add) and comm:
-            return ' + '.join(sorted([canon(e.left, comm), canon(e.right, comm)], reverse=True))
-        if isinstance(e, ast.Tuple):
-            return '(' + ', '.join(canon(x, comm) for x in e.elts) + ')'
-        if isinstance(e, ast.Call) and u(e.func) in ('max', 'min') and comm:
-            return '%s(%s)' % (u(e.func), ', '.join(sorted((canon(a, comm) for a in e.args), reverse=True)))
-        return u(e)
-
+    def variants(pat, comm):
+        """the pattern plus, for commutative folds, the spelling with + operands / max-min arguments swapped"""
+        out = [pat]
+        if comm:
+            out.append(pat.replace('_new + _curr', '_curr + _new').replace('max(_new, _curr)', 'max(_curr, _new)')
+                       .replace('min(_new, _curr)', 'min(_curr, _new)').replace('_curr + 1', '1 + _curr')
+                       .replace('_new + _curr[1]', '_curr[1] + _new').replace('_curr[0] + 1', '1 + _curr[0]'))
+        return out
     for name, (fshape, finshape) in shape.items():
         c = table.get(name)
         if not (isinstance(c, ast.Call) and len(c.args) == 4):
             run.fail('AGG', m.relpath, J + ':<module>', 'AGGREGATORS[%r]' % name, 'aggregate %r missing or malformed' % name)
             continue
         f, fin = c.args[0], c.args[1]
-        okf = isinstance(f, ast.Lambda) and [a.arg for a in f.args.args] == ['curr', 'new'] and \
-            canon(f.body, name in commutative) == canon(ast.parse(fshape, mode='eval').body, name in commutative)
-        fint = u(fin.body) if isinstance(fin, ast.Lambda) else u(fin)
-        okn = fint == finshape or (isinstance(fin, ast.Lambda) and canon(fin.body, False) == canon(ast.parse(finshape, mode='eval').body, False))
+        okf = isinstance(f, ast.Lambda) and len(f.args.args) == 2 and \
+            any(match_expr(v, f.body, {'_curr': f.args.args[0].arg, '_new': f.args.args[1].arg}) is not None
+                for v in variants(fshape, name in commutative))
+        if isinstance(fin, ast.Lambda):
+            okn = len(fin.args.args) == 1 and match_expr(finshape, fin.body, {'_v': fin.args.args[0].arg}) is not None
+        else:
+            okn = u(fin) == finshape
         run.check(okf and okn, 'AGG', where(repo, c), J + ':<module>', 'AGGREGATORS[%r] = (%s ; %s)' % (name, fshape, finshape),
                   'aggregate %r no longer computes its documented definition (fold: %s ; finaliser: %s)'
-                  % (name, u(f.body) if isinstance(f, ast.Lambda) else u(f), fint))
-    md = repo.func(J + ':median')
-    mb = u(md.node)
-    ok = 'values = sorted(values)' in mb and 'mid = int(ll / 2)' in mb and 'if ll % 2 == 0' in mb and \
-        '(values[mid - 1] + values[mid]) / 2' in mb and 'return values[mid]' in mb
+                  % (name, u(f.body) if isinstance(f, ast.Lambda) else u(f), u(fin.body) if isinstance(fin, ast.Lambda) else u(fin)))
+    md = ctx.N(repo.func(J + ':median'))
+    ok = has_stmt('_s = sorted(_vals)', md.node) and \
+        (has_expr('(_s[_mid - 1] + _s[_mid]) / 2', md.node) or has_expr('(_s[_mid] + _s[_mid - 1]) / 2', md.node)) and \
+        has_stmt('return _s[_mid]', md.node) and (has_stmt('_mid = int(_n / 2)', md.node) or has_stmt('_mid = _n // 2', md.node)) and \
+        (has_expr('_n % 2 == 0', md.node) or has_expr('_n % 2', md.node) or has_expr('_n % 2 != 0', md.node) or has_expr('_n % 2 == 1', md.node))
     run.check(ok, 'AGG', md.where, md.qualname, 'median of the sorted values (mean of the middle two for even counts)', 'median helper changed')
 
     kc = repo.cls(J + ':KeyCalc')
-    kinit, kcall = kc.methods['__init__'], kc.methods['__call__']
-    from sa.pattern import has_stmt as _hs, has_expr as _he
+    kinit, kcall = ctx.N(kc.methods['__init__']), ctx.N(kc.methods['__call__'])
     run.rule('KEY', 'KEY-RENDERING: a field-list key becomes the format string "{f1}:{f2}:..." (one separator between components), a '
                     'format-string key is used as given; the key is rendered from the row with "#" bound to the row number; source '
                     'and target use the same renderer class')
-    run.check(_he("':'.join(('{%s}' % _k for _k in key_spec))", kinit.node) and _hs('self.key_spec = key_spec', kinit.node), 'KEY',
-              kinit.where, kinit.qualname, "':'.join('{%s}' % key for key in key_spec)",
+    join_ok = [b for n, b in find_expr("':'.join(('{%s}' % _k for _k in _spec))", kinit.node)] + \
+        [b for n, b in find_expr("':'.join(['{%s}' % _k for _k in _spec])", kinit.node)]
+    run.check(len(join_ok) == 1, 'KEY', kinit.where, kinit.qualname, "':'.join('{%s}' % key for key in key_spec)",
               'list keys are not rendered as colon-separated components (two different key tuples could render the same string)')
-    run.check(_hs("return self.key_spec.format(**{**%s, '#': %s})" % (kcall.params[1], kcall.params[2]), kcall.node), 'KEY',
-              kcall.where, kcall.qualname, "key_spec.format(**{**row, '#': row_number})", 'the key is not rendered from the row and its number')
-    run.check(_hs('source_key = KeyCalc(source_key)', aux.node) and
-              _hs('target_key = KeyCalc(target_key) if target_key is not None else target_key', aux.node), 'KEY', aux.where,
+    rets = [n for n in ast.walk(kcall.node) if isinstance(n, ast.Return)]
+    okc = len(rets) == 1 and match_expr("self.key_spec.format(**{**_row, '#': _rn})", resolve_here(rets[0].value),
+                                        {'_row': kcall.params[1], '_rn': kcall.params[2]}) is not None
+    run.check(okc, 'KEY', kcall.where, kcall.qualname, "key_spec.format(**{**row, '#': row_number})", 'the key is not rendered from the row and its number')
+    run.check(has_stmt('source_key = KeyCalc(source_key)', aux.node) and
+              has_stmt('target_key = KeyCalc(target_key) if target_key is not None else target_key', aux.node), 'KEY', aux.where,
               aux.qualname, 'both keys rendered by KeyCalc', 'source and target keys are rendered by different code')
+
     run.rule('ORD', 'INDEX-BEFORE-TARGET: the target branch asserts that the source was indexed; mode is one of the three documented '
                     'values; the source must precede the target in the package')
-    asserts = [n for n in ast.walk(nri.node) if isinstance(n, ast.Assert) and pseudo(n.test) == 'has_index']
-    ok = len(asserts) == 1 and isinstance(asserts[0]._parent, ast.If) and 'target_name' in u(asserts[0]._parent.test) and \
-        asserts[0]._parent.body[0] is asserts[0]
-    sets = [n for n in ast.walk(nri.node) if isinstance(n, ast.Assign) and pseudo(n.targets[0]) == 'has_index'
-            and isinstance(n.value, ast.Constant) and n.value.value is True]
-    ok = ok and len(sets) == 1 and 'source_name' in u(sets[0]._parent.test)
-    run.check(ok, 'ORD', nri.where, nri.qualname, 'assert has_index dominates process_target(target)',
+    flags = find_stmt('assert _flag', nri.node)
+    ok = len(flags) == 1
+    if ok:
+        fl = flags[0][1]['_flag']
+        a = flags[0][0]
+        ok = isinstance(a._parent, ast.If) and 'target_name' in names_in(a._parent.test) and a._parent.body[0] is a
+        sets = find_stmt('%s = True' % fl, nri.node)
+        ok = ok and len(sets) == 1 and isinstance(sets[0][0]._parent, ast.If) and 'source_name' in names_in(sets[0][0]._parent.test)
+    run.check(ok, 'ORD', nri.where, nri.qualname, 'assert has_index dominates the target branch',
               'the target can be processed before the source was indexed (every row would be unmatched)')
-    am = [n for n in own_nodes(aux.node) if isinstance(n, ast.Assert) and 'mode in' in u(n.test)]
+    am = [n for n in own_nodes(aux.node) if isinstance(n, ast.Assert) and 'mode' in names_in(n.test) and
+          isinstance(n.test, ast.Compare) and isinstance(n.test.ops[0], ast.In)]
     ok = len(am) == 1 and sorted(abstypes._const(e) for e in am[0].test.comparators[0].elts) == ['full-outer', 'half-outer', 'inner']
     run.check(ok, 'ORD', aux.where, aux.qualname, "assert mode in ['inner', 'half-outer', 'full-outer']", 'an unknown mode is accepted silently')
-    func = repo.func(J + ':join_aux.func')
+    func = nested(ctx, aux, 'step')
     stream.r6_consumption(ctx, [func])
     stream.r6_identity(ctx, [func])
     stream.r6_count_agreement(ctx, [func])
-    run.trusted += ['LF5 KVFile get raises KeyError for a missing key; set overwrites']
-    run.not_decided += ['that each aggregate equals its definition on all inputs (values)', 'key rendering and null-key behaviour',
-                        'equivalence of the in-memory cache and the on-disk index']
-    return ('Guarded path signature of the per-target-row loop over {KeyError raised, mode == inner}; post-loop full-outer emission; '
-            'indexer and deduplication shapes; aggregator table against the documented definitions and (abstractly) against declared '
-            'types; dominance of the index assertion; descriptor/stream count agreement.', ['LF5'])
+
+
+EXPLANATION = ('Guarded path signature of the per-target-row loop over {KeyError raised, mode == inner}; post-loop full-outer emission; '
+            'indexer and deduplication shapes; aggregator table against the documented definitions (patterns with free parameter '
+            'names, commutative variants accepted); key rendering; dominance of the index assertion; descriptor/stream count '
+            'agreement.  All shapes are compared on normalised functions.')
